@@ -26,30 +26,32 @@ type c06Suite struct {
 
 // c06Point builds a·base (base nil = the generator) along construction path `mode`, so that operands
 // reach Pair in the internal (projective / Jacobian / non-normalised) form that path leaves behind.
-func c06Point(g kyber.Group, q, a *big.Int, base kyber.Point, mode int, rng *kc.Rng) kyber.Point {
+// negDerived reports that the point is the unchanged output of Neg (path 2, or path 3 when the minuend
+// is the identity, because Sub(O, R) = Add(O, Neg(R)) hands Neg(R) through).
+func c06Point(g kyber.Group, q, a *big.Int, base kyber.Point, mode int, rng *kc.Rng) (pt kyber.Point, negDerived bool) {
 	mul := func(v *big.Int) kyber.Point { return g.Point().Mul(blsScalar(g, q, v), base) }
 	switch mode % 8 {
 	case 1: // sum of two multiples
 		a1 := rng.BigBelow(q)
-		return g.Point().Add(mul(a1), mul(new(big.Int).Sub(a, a1)))
+		return g.Point().Add(mul(a1), mul(new(big.Int).Sub(a, a1))), false
 	case 2: // negation of the opposite multiple
-		return g.Point().Neg(mul(new(big.Int).Neg(a)))
+		return g.Point().Neg(mul(new(big.Int).Neg(a))), true
 	case 3: // difference
 		r := rng.BigBelow(q)
-		return g.Point().Sub(mul(new(big.Int).Add(a, r)), mul(r))
+		return g.Point().Sub(mul(new(big.Int).Add(a, r)), mul(r)), blsAddq(q, a, r).Sign() == 0
 	case 4: // (a-1)·base + base, receiver aliased with an operand
 		p := mul(new(big.Int).Sub(a, big.NewInt(1)))
 		b := base
 		if b == nil {
 			b = g.Point().Base()
 		}
-		return p.Add(p, b)
+		return p.Add(p, b), false
 	case 5: // normalised through the wire format
 		p := g.Point()
 		if err := p.UnmarshalBinary(blsPB(mul(a))); err != nil {
 			panic(err)
 		}
-		return p
+		return p, false
 	case 6: // three-term chain with a doubling
 		h := new(big.Int).Rsh(a, 1)
 		p := mul(h)
@@ -61,14 +63,14 @@ func c06Point(g kyber.Group, q, a *big.Int, base kyber.Point, mode int, rng *kc.
 			}
 			p = g.Point().Add(p, b)
 		}
-		return p
+		return p, false
 	case 7: // scalar product of a scalar product
 		r := new(big.Int).Add(big.NewInt(2), new(big.Int).SetBytes(rng.Bytes(8)))
 		rinv := new(big.Int).ModInverse(r, q)
 		inner := mul(blsMulq(q, a, rinv))
-		return g.Point().Mul(blsScalar(g, q, r), inner)
+		return g.Point().Mul(blsScalar(g, q, r), inner), false
 	}
-	return mul(a)
+	return mul(a), false
 }
 
 func runC06(c *kc.Ctx) {
@@ -78,6 +80,7 @@ func runC06(c *kc.Ctx) {
 	if emitMode {
 		return
 	}
+	defer blsPinDriver(c)()
 	replayKey := blsReplay(c)
 	defer func() { blsReplayReport(c, replayKey) }()
 	b := &blsBatch{c: c}
@@ -111,13 +114,16 @@ func c06Run(c *kc.Ctx, s *c06Suite, rng *kc.Rng, b *blsBatch) {
 		}()
 		return su.Pair(p, qq)
 	}
-	// G2 operands that are the direct result of Neg (construction path 2): on bn254 such a point keeps
+	// G2 operands that are the unchanged result of Neg: on bn254 such a point keeps
 	// z = 1 with the cached t = z² zeroed, and Pair / ValidatePairing use t (second known finding).
 	negQ := map[kyber.Point]bool{}
-	mk1 := func(a *big.Int, base kyber.Point, mode int) kyber.Point { return c06Point(s.g1, q, a, base, mode, rng) }
+	mk1 := func(a *big.Int, base kyber.Point, mode int) kyber.Point {
+		p, _ := c06Point(s.g1, q, a, base, mode, rng)
+		return p
+	}
 	mk2 := func(a *big.Int, base kyber.Point, mode int) kyber.Point {
-		p := c06Point(s.g2, q, a, base, mode, rng)
-		if mode%8 == 2 {
+		p, neg := c06Point(s.g2, q, a, base, mode, rng)
+		if neg {
 			negQ[p] = true
 		}
 		return p
